@@ -307,6 +307,13 @@ def generate(tier, seed, ctx):
     for pid, sg, thin, burn, dom in [(20, 2.4, 30, 200, []), (21, 3.0, 40, 200, []), (2, 0.8, 30, 100, [-1.0, 1.0]), (3, 1.5, 30, 100, [-1.0, 2.0]),
                                      (20, 1.5, 30, 100, [-1.0, 2.0]), (0, 0.5, 40, 0, [2.0, 3.0])]:
         st("metro1", M, [pid, sg, thin, burn] + dom)
+    # bounded domains with appreciable density within one proposal width of a boundary: a proposal rule that is not
+    # symmetric near the boundary (re-drawing instead of rejecting) depletes the mass there (KS D = 0.02-0.07)
+    NB = 100000 if th else 60000
+    for pid, sg, thin, burn, dom in [(0, 0.5, 10, 100, [0.0, 1.0]), (21, 1.0, 10, 100, [0.0, 2.0]), (6, 0.3, 10, 100, [0.0, 1.0])] + \
+                                    ([(0, 2.0, 10, 100, [-1.0, 1.0]), (3, 1.0, 10, 100, [-1.0, 2.0])] if th else []):
+        st("metro1", NB, [pid, sg, thin, burn] + dom)
+    st("metro2", NB // 2, [0, 0.5, 1.0, 10, 100, 0.0, 1.0, 0.0, 2.0])
     for pid, s1, s2, thin, burn, dom in [(20, 1.7, 3.4, 40, 200, []), (3, 1.0, 0.6, 40, 100, [-1.0, 1.0, 0.0, 1.0]), (0, 0.5, 1.0, 40, 50, [0.0, 1.0, 2.0, 4.0])]:
         st("metro2", M, [pid, s1, s2, thin, burn] + dom)
     return R
@@ -664,7 +671,13 @@ def cmp_stat(a, impl, ctx):
         if pid == 20:
             cdf = tnorm(dom[0], dom[1]) if dom else stats.norm.cdf
         elif pid == 21:
-            cdf = stats.laplace.cdf
+            if dom:
+                La, Lb = stats.laplace.cdf(dom[0]), stats.laplace.cdf(dom[1])
+                cdf = lambda x: (stats.laplace.cdf(x) - La) / (Lb - La)
+            else:
+                cdf = stats.laplace.cdf
+        elif pid == 6:       # density ∝ x on [lo,hi], lo >= 0
+            cdf = lambda x: (x * x - dom[0] ** 2) / (dom[1] ** 2 - dom[0] ** 2)
         elif pid == 2:
             cdf = tri
         elif pid == 3:
